@@ -111,7 +111,7 @@ func stallWatchdog(flavour string) {
 	// thresholds: wall-clock for a goroutine blocked on a mutex (it burns no CPU), CPU time of this process for a
 	// spinning one — so that a machine too busy to run the child is never mistaken for a stalled run
 	wallLimit, cpuLimit := 6*time.Second, 5*time.Second
-	if flavour == "auto" {
+	if flavour == "auto" || flavour == "autorace" {
 		cpuLimit = 15 * time.Second // here a spin is reported as a violation: be generous
 	}
 	last, since, cpuSince := kernel.Progress.Load(), time.Now(), cpuTime()
